@@ -1,6 +1,6 @@
 _TINY5 = ["ARDUINOJSON_SLOT_ID_SIZE=1", "ARDUINOJSON_POOL_CAPACITY=4", "ARDUINOJSON_INITIAL_POOL_COUNT=1"]
 def _c05(depth, alphabet, defs, cap=0):
-    return {"src": "checks/hx.cpp", "mode": "fault", "defs": list(defs), "deps": ["checks/hx.hpp", "checks/hx_fault.hpp"],
+    return {"src": "checks/hx.cpp", "mode": "fault", "defs": list(defs), "deps": ["checks/hx.hpp", "checks/hx_fault.hpp", "checks/hx_limits.hpp"],
             "fallback_defs": ["VERIF_NO_INSPECTOR"], "args": ["--depth=%d" % depth, "--alphabet=%s" % alphabet, "--cap=%d" % cap]}
 PROPS["C05"] = {
     "level": "fault_enumeration",
